@@ -139,7 +139,8 @@ func (e *env) runSyncPairs(n int, deep bool) {
 		r.ValidBest = best == wantBest
 		out = append(out, *r)
 		e.emit(trace.Ev{"e": "SyncEnd", "case": p.label, "prefers": r.Prefers, "converged": r.Converged, "stalled": r.Stalled,
-			"tie":       sc.remote[sc.R].Header().TotalScore() == sc.local[sc.H].Header().TotalScore(),
+			"tie": sc.remote[sc.R].Header().TotalScore() == sc.local[sc.H].Header().TotalScore(),
+			"H":   sc.H, "R": sc.R, "A": sc.A,
 			"validBest": r.ValidBest, "storeOK": r.StoreOK, "hostile": p.hostile.kind, "dropped": r.Dropped})
 		p.local.close()
 		if p.remote != nil {
@@ -167,6 +168,7 @@ func (e *env) runPair(i int, p *pair) {
 		p.remote.comm.Start()
 		go func() {
 			_ = p.remote.comm.Protocols()[0].Run(p2p.NewPeer(discover.NodeID{0x31, byte(i)}, "local", nil), re)
+			re.Close() // the protocol handler returned: the p2p server drops the connection
 			close(remoteDone)
 		}()
 	} else {
